@@ -69,7 +69,8 @@ func (c cacheMsgs) commit(ctx sdk.Context, k common.KeeperOracle) {
 	i := 0
 	for ; i < len(index.Index); i++ {
 		b := index.Index[i]
-		if b > block-uint64(common.MaxNonce) {
+		// written as a sum: block-maxNonce wraps around below height maxNonce and then every entry is dropped
+		if b+uint64(common.MaxNonce) > block {
 			break
 		}
 		k.RemoveRecentMsg(ctx, b)
@@ -118,7 +119,7 @@ func (c *cacheParams) commit(ctx sdk.Context, k common.KeeperOracle) {
 	i := 0
 	for ; i < len(index.Index); i++ {
 		b := index.Index[i]
-		if b >= block-uint64(common.MaxNonce) {
+		if b+uint64(common.MaxNonce) >= block {
 			break
 		}
 		k.RemoveRecentParams(ctx, b)
